@@ -194,6 +194,14 @@ def lik_case(ctx, rng, reqs, meta, forced=None):
             reqs.append(dict(op='C20.adj', mean=bits(mean[0]), std=bits(std[0]), gamma=bits(gamma[0]), var=bits(S[0, 0])))
             meta.append(('adj', case, (mean[0] + std[0] * gamma[0], S[0, 0] + (std[0] * gamma[0]) ** 2)))
     same = (exp == got) or (math.isfinite(exp) and math.isfinite(got) and math.isclose(got, exp, rel_tol=1e-7, abs_tol=1e-8))
+    if not same and got == -math.inf and kind.startswith('standard') and np.linalg.cond(np.atleast_2d(S2)) > 1e8:
+        # the documented answer for a sample covariance scipy declares singular ("Unable to compute logpdf due to poor sample cov"):
+        # outside the stated assumption (non-singular sample covariance); counted, not judged
+        ctx.count('likelihood.poor_sample_cov', 'abstained (cond > 1e8, code answers -inf)')
+        if meta and meta[-1][1] is case:
+            meta.pop()
+            reqs.pop()
+        return
     if not same:
         ctx.fail_input(case, 'the %s synthetic log-likelihood is %r, the stated formula gives %r' % (kind, got, exp), exp, got)
 
